@@ -54,26 +54,28 @@ def os_guards(effect):
     return out
 
 
-def run(facts, rep, tier, ctx):
-    ws = World(facts, False)
+def compare_world(facts, rep, w, tag, floor):
+    """R02.1 / R02.2 for one world: the in-memory backend's guards as found vs what the OS enforces for the physical one"""
     inter = Inter(facts)
-    # MemoryFS side: guards as found (a silent scratch report collects Table M obligations)
     from ..report import Report
     scratch = Report("C02-scratch")
-    found, n, mm = c01.table_m(facts, scratch, "M", "Mk")
-    phys = facts.impl_methods("FileSystem", ws.physical)
+    trait = w.trait.rsplit("::", 1)[1]
+    found, n, mm = c01.table_m(facts, scratch, "M", "Mk", self_ty=w.memory, trait=trait)
+    phys = facts.impl_methods(trait, w.physical)
     ncmp = 0
     for op, rel in sorted(RELEVANT.items()):
         pb = phys.get(op)
         mb = mm.ops.get(op)
         if pb is None or mb is None:
-            rep.fail("R02.1", ws.physical if pb is None else c01.MEM, "%s implemented on both sides" % op, "missing implementation")
+            if w.asyncw and mb is None and op.startswith("set_"):
+                continue  # AsyncMemoryFS keeps no time stamps (F22, a C15 finding): nothing to compare
+            rep.fail(tag + "R02.1", w.physical if pb is None else w.memory, "%s implemented on both sides" % op, "missing implementation")
             continue
         effs = [e for e in physrules.effects_of(facts, inter, pb) if (e[0] != "stat" or op == "metadata") and e[0] != "fstat"]
         if op == "create_dir":
             effs = [e for e in effs if e[0] == "mkdir"]
         if len(effs) != 1:
-            rep.fail("R02.1", pb.id, "%s: single std call" % op, "PhysicalFS::%s makes %s" % (op, [e[0] for e in effs]), pb.span)
+            rep.fail(tag + "R02.1", pb.id, "%s: single std call" % op, "PhysicalFS::%s makes %s" % (op, [e[0] for e in effs]), pb.span)
             continue
         eff = effs[0][0]
         if eff.startswith("utimens"):
@@ -87,23 +89,66 @@ def run(facts, rep, tier, ctx):
             ncmp += 1
             a, b = g in memg, g in osg
             if a == b:
-                rep.ob("R02.1", mb.id, "%s: '%s' enforced by both or neither" % (op, NAMES[g]), True,
+                rep.ob(tag + "R02.1", mb.id, "%s: '%s' enforced by both or neither" % (op, NAMES[g]), True,
                        "MemoryFS %s, OS(%s) %s" % ("checks" if a else "does not check", eff, "enforces" if b else "does not enforce"), mb.span)
             elif a and not b:
-                rep.ob("R02.1", pb.id, "%s: '%s' checked by MemoryFS only" % (op, NAMES[g]), False,
+                rep.ob(tag + "R02.1", pb.id, "%s: '%s' checked by MemoryFS only" % (op, NAMES[g]), False,
                        "MemoryFS refuses %s when '%s' fails, but the std call PhysicalFS uses (%s) does not enforce it: "
                        "the two backends disagree on the outcome of that call" % (op, NAMES[g], eff), pb.span)
             else:
-                rep.ob("R02.1", mb.id, "%s: '%s' enforced by the OS only" % (op, NAMES[g]), False,
+                rep.ob(tag + "R02.1", mb.id, "%s: '%s' enforced by the OS only" % (op, NAMES[g]), False,
                        "the OS refuses %s when '%s' fails (%s), MemoryFS does not check it: code validated on MemoryFS "
                        "behaves differently on PhysicalFS" % (op, NAMES[g], eff), mb.span)
-    rep.floor("guards compared between MemoryFS and the OS", ncmp, 18)
+    rep.floor("guards compared between the in-memory backend and the OS (%s)" % w.tag, ncmp, floor)
     # R02.2 error classes
     for o in scratch.obligations:
         if o["rule"] == "Mk":
-            rep.ob("R02.2", o["fn"], o["key"].split("|")[2], o["ok"], o["detail"], o["loc"])
+            rep.ob(tag + "R02.2", o["fn"], o["key"].split("|")[2], o["ok"], o["detail"], o["loc"])
+    # wrong-type targets are not "missing": the in-memory backend reports them with a class of their own (Other), as the OS
+    # does (ENOTDIR / EISDIR are not NotFound) — a wrong-type target reported as FileNotFound makes "already gone" callers
+    # take different branches on the two backends
+    for op in ("read_dir", "remove_dir", "remove_file", "open_file", "append_file"):
+        mb = mm.ops.get(op)
+        if mb is None:
+            continue
+        for cb in mm.inter.code_bodies(mb):
+            for blk in cb.blocks:
+                if blk.cleanup:
+                    continue
+                for st in blk.stmts:
+                    if st.kind == "assign" and st.rv.kind == "agg" and st.rv.agg.get("adt") == "error::VfsErrorKind" and \
+                            st.rv.agg.get("variant") == "FileNotFound":
+                        from ..memrules import GuardView
+                        from ..terms import get_tracer
+                        from ..panics import nguard
+                        # branch outcomes of this very function only (an earlier callee that happened to find the entry —
+                        # open_file's access-time bump — says nothing about the lookup whose miss is being reported here)
+                        gv = GuardView([nguard(g) for g in get_tracer(facts, cb).guards_at(blk.idx)], mm.inter)
+                        ex, _k = gv.exists(mm.key_arg(mb))
+                        rep.ob(tag + "R02.2", mb.id, "%s: FileNotFound is built only where the target is missing" % op, not ex,
+                               "on the lookup-miss edge" if not ex else
+                               "FileNotFound is built on a path where the target was found (a wrong-type target is reported as missing)", st.line)
+    return mm
+
+
+def run(facts, rep, tier, ctx):
+    ws = World(facts, False)
+    mm = compare_world(facts, rep, ws, "", 18)
+    wa_ = World(facts, True)
+    if wa_.present():
+        compare_world(facts, rep, wa_, "A/", 14)
     c12.run_error_rs(facts, rep)  # NotFound normalisation etc. (R12.3a) — PhysicalFS side of the class agreement
     physrules.table_o_shape(facts, rep, "R02.2p", ws)
+    # R02.5 the physical translator joins the path argument itself: names that are valid on the host (dots-only, backslashes)
+    # must reach the OS unchanged, as they reach the map of the in-memory backend (shared with C07 R07.2)
+    from . import c07
+    from ..panics import Discharger as _D, load_records as _lr
+    import os as _os
+    D0 = _D(facts, _lr(_os.path.join(ctx["V"], "rules", "panic_records.json")))
+    from .c10 import _Prefixed as _P
+    for w_ in (ws, wa_):
+        if w_.present():
+            c07.physical_gate(facts, _P(rep, ("A/" if w_.asyncw else "") + "R02.5"), w_, D0)
     # R02.3 Table P is backend independent
     pr = PathRules(facts, ws)
     pr.table_p(rep, "R02.3")
